@@ -2,7 +2,7 @@
    valid_input = every pair has a char in U+0000..U+10FFFF and a glyph id in 1..65535;
    canon input = the input sorted and de-duplicated (what from_mappings works with). *)
 From Coq Require Import ZArith List.
-From FV Require Import Lib.RustInt C08.Model C08.Proofs.
+From FV Require Import Lib.RustInt C08.Model C08.Proofs C08.Iter4 C08.Fits4 C08.Var14.
 Import ListNotations.
 Open Scope Z_scope.
 
@@ -61,13 +61,44 @@ Proof. exact conflict_free_accepted. Qed.
 Theorem charmap_map_answers : forall input o4 o12, valid_input input -> from_mappings input = Built o4 o12 ->
   forall c, 0 <= c -> c <> 65535 -> charmap_map (records_of o4 o12) c = assoc c (canon input).
 Proof. exact charmap_map_answers_lemma. Qed.
-(* skrifa Charmap::mappings when a format-12 subtable exists: exactly the sorted input pairs (U+10FFFF
-   included since the fix of the iterator limit), provided glyph ids are below the glyph count.
-   PARTIAL: the format-4-selected case (BMP-only fonts) has no theorem (model + correspondence + oracle). *)
-Theorem charmap_mappings_exact_f12_partial : forall input o4 gs ng, valid_input input -> from_mappings input = Built o4 (Some gs) ->
+(* Cmap4Iter over the built segment arrays: exactly the BMP part of the sorted input, in ascending
+   order, followed - iff U+FFFF itself is not mapped - by the one pair (0xFFFF, 0) that the format's
+   sentinel segment stands for (sentinel_pairs ms = [] if assoc 0xFFFF ms is Some, else [(65535, 0)]). *)
+Theorem cmap4_iter_exact : forall input t4 o12, valid_input input -> from_mappings input = Built (Some t4) o12 ->
+  cmap4_iter t4 = bmp_prefix (canon input) ++ sentinel_pairs (canon input).
+Proof. exact cmap4_iter_exact_lemma. Qed.
+
+(* skrifa Charmap::mappings (selection, Cmap12 iterator limits = (char::MAX, numGlyphs), .notdef filter),
+   every case: exactly the input pairs in ascending order, for glyph ids below the glyph count. *)
+Theorem charmap_mappings_exact : forall input o4 o12 ng, valid_input input -> from_mappings input = Built o4 o12 ->
   (forall c g, In (c, g) input -> g < ng) ->
-  charmap_mappings (records_of o4 (Some gs)) ng = canon input.
-Proof. exact charmap_mappings_exact_f12_lemma. Qed.
+  charmap_mappings (records_of o4 o12) ng = canon input.
+Proof. exact charmap_mappings_exact_lemma. Qed.
+
+(* fits4 (Fits4.v): every id_range_offset and the subtable length fit 16 bits, computed from the segments the
+   segment computer chooses.  It is EXACTLY the set of sorted valid mappings on which neither create_format_4
+   nor Cmap4::compute_length panics ... *)
+Theorem fits4_exact : forall ms, asc ms -> Forall valid ms -> f4_ok ms = fits4 ms.
+Proof. exact Fits4.fits4_exact. Qed.
+(* ... so within it building and compiling succeed for every valid conflict-free input ... *)
+Theorem format4_build_total : forall input, valid_input input -> conflict_free input -> fits4 (canon input) = true ->
+  exists o4 o12, from_mappings input = Built o4 o12 /\ dump_panics o4 = false.
+Proof. exact format4_build_total_lemma. Qed.
+(* ... and beyond it the code panics instead of returning an error (finding F-9); the limit is sharp:
+   8188 isolated code points fit (Fits4.fits4_8188), 8189 do not. *)
+Theorem format4_build_panics_beyond_fits4 : forall input, valid_input input -> conflict_free input -> fits4 (canon input) = false ->
+  from_mappings input = Panic \/ exists o4 o12, from_mappings input = Built o4 o12 /\ dump_panics o4 = true.
+Proof. exact format4_build_panics_beyond_lemma. Qed.
+Theorem format4_build_refuted_beyond_fits4 :
+  exists input, valid_input input /\ conflict_free input /\ fits4 (canon input) = false /\
+    (from_mappings input = Panic \/ exists o4 o12, from_mappings input = Built o4 o12 /\ dump_panics o4 = true).
+Proof. exact format4_build_refuted_beyond_fits4_lemma. Qed.
+
+(* Cmap14::map_variant on every well-formed selector table (selectors strictly ascending, default ranges
+   ascending and disjoint, non-default mappings strictly ascending): UseDefault inside a default range, the
+   encoded variant glyph for a non-default mapping, nothing otherwise / for an absent selector. *)
+Theorem cmap14_answers : forall sels, wf14 sels -> forall c sel, cmap14_map_variant sels c sel = cmap14_spec sels c sel.
+Proof. exact cmap14_answers_lemma. Qed.
 
 Print Assumptions cmap4_answers.
 Print Assumptions cmap4_answers_in.
@@ -80,4 +111,10 @@ Print Assumptions cmap_answers.
 Print Assumptions conflict_sound.
 Print Assumptions conflict_free_never_rejected.
 Print Assumptions charmap_map_answers.
-Print Assumptions charmap_mappings_exact_f12_partial.
+Print Assumptions cmap4_iter_exact.
+Print Assumptions charmap_mappings_exact.
+Print Assumptions fits4_exact.
+Print Assumptions format4_build_total.
+Print Assumptions format4_build_panics_beyond_fits4.
+Print Assumptions format4_build_refuted_beyond_fits4.
+Print Assumptions cmap14_answers.
